@@ -10,6 +10,8 @@ Every case runs the real `System_R.symmetrize` (or `SymWann.symmetrize` for the 
     degenerate multiplets), at 3 k-points, for every operation g of the resulting group,
   * an independent R-space reference (`wbmc/symwann_oracle.py`): g.X = X for Ham, SS and for the position
     operator  AA + diag(centres - sites),
+  * the point group declared on the system (`system.pointgroup`, what `check_symmetry` and the grids use) is the
+    group the model was symmetrised with,
   * the Wannier centres map onto each other: every g t_n coincides (mod lattice) with a centre of the image shell,
   * symmetrising again changes nothing (matrices on common R-vectors, zeros on the others, centres).
 
@@ -36,7 +38,7 @@ RULE = ("cases = (structure, projection set, soc, magnetic order, R-set, centre 
 ASSUMPTIONS = [
     "structures: sc 1 atom, bcc 1 atom, hexagonal 2 species, hcp (2 equal atoms, non-symmorphic), zinc-blende, monoclinic "
     "2 species (group m), bcc ferromagnet (m || z), CsCl-type antiferromagnet, zinc-blende with a moment || [111] on one "
-    "species (non-centrosymmetric magnetic group); other space groups are not reached",
+    "species (non-centrosymmetric magnetic group), trigonal Te (P3_121); other space groups are not reached",
     "atoms of one name always form a single Wyckoff orbit (symmetrize() warns that the other case is 'not much tested')",
     "';'-joined projections form one shell per atom (what System_R.symmetrize builds with do_not_split_projections=True)",
     "the orbital representation matrices rot_orb of the library are trusted in the R-space reference (they are the "
@@ -57,6 +59,8 @@ STRUCTS = {
     "bccFM": ("bcc", [("X", (0, 0, 0))], [(0, 0, 1)]),
     "afm": ("sc", [("X", (0, 0, 0)), ("X", (0.5, 0.5, 0.5))], [(0, 0, 1), (0, 0, -1)]),
     "zbFM": ("fcc", [("Ga", (0, 0, 0)), ("As", (0.25, 0.25, 0.25))], [(1, 1, 1), (0, 0, 0)]),
+    # trigonal tellurium (P3_121: screw axis, C2 sites) -- the structure of the repository's own Te_sparse fixture
+    "te": ("hex", [("Te", (0.269, 0.0, 1 / 3)), ("Te", (0.731, 0.731, 0.0)), ("Te", (0.0, 0.269, 2 / 3))], None),
 }
 
 PROJS = {
@@ -69,6 +73,7 @@ PROJS = {
     "bccFM": [["X:s"], ["X:p"], ["X:t2g"], ["X:eg"]],
     "afm": [["X:s"], ["X:p"]],
     "zbFM": [["Ga:s", "As:s"], ["Ga:s", "As:p"], ["Ga:sp3", "As:sp3"]],
+    "te": [["Te:s"], ["Te:p"], ["Te:s", "Te:p"]],
 }
 
 QUICK_PROJS = {
@@ -81,6 +86,7 @@ QUICK_PROJS = {
     "bccFM": [["X:p"], ["X:eg"]],
     "afm": [["X:s"], ["X:p"]],
     "zbFM": [["Ga:s", "As:s"]],
+    "te": [["Te:p"]],
 }
 
 KPOINTS = [(0.123, -0.271, 0.389), (0.31, 0.47, -0.09), (0.5, 0.2, 0.0)]
@@ -127,23 +133,21 @@ def cases(tier, seed):
     # simplest first: by number of Wannier functions
     out.sort(key=lambda c: (layout(c)["nw"], c["struct"], projkey(c["proj"]), c["soc"], c["rs"], c["cen"], c.get("data", ""), c.get("sub", "")))
     lin = []
-    # (structure, projections, soc, matrices)
+    # (structure, projections, soc, matrices, R-sets)
     if quick:
-        lin_table = [("sc1", ["X:s"], False, ("Ham", "AA")), ("sc1", ["X:p"], False, ("Ham", "AA")),
-                     ("hcp", ["A:s"], False, ("Ham", "AA")), ("hex2", ["A:s", "B:p"], False, ("Ham",)),
-                     ("afm", ["X:s"], True, ("SS",))]
+        lin_table = [("sc1", ["X:s"], False, ("Ham", "AA"), ("shell1",)), ("sc1", ["X:p"], False, ("Ham", "AA"), ("shell1",)),
+                     ("hcp", ["A:s"], False, ("Ham", "AA"), ("shell1",)), ("hex2", ["A:s", "B:p"], False, ("Ham",), ("shell1",)),
+                     ("afm", ["X:s"], True, ("SS",), ("shell1",))]
     else:
         lin_table = []
-        for st, projs in {"sc1": [["X:s"], ["X:p"], ["X:eg"], ["X:s;p"]], "hcp": [["A:s"], ["A:p"]],
-                          "hex2": [["A:s", "B:p"]], "zb": [["Ga:s", "As:p"], ["Ga:sp3", "As:sp3"]],
-                          "mono2": [["X:s", "Y:p"]], "afm": [["X:s"]], "bccFM": [["X:p"]], "zbFM": [["Ga:s", "As:s"]]}.items():
-            for proj in projs:
-                for soc in ((True,) if STRUCTS[st][2] is not None else (False, True)):
-                    if layout({"struct": st, "proj": proj, "soc": soc})["nw"] <= 8:
-                        lin_table.append((st, proj, soc, ("Ham", "AA") + (("SS",) if soc else ())))
-    for st, proj, soc, mats in lin_table:
+        for st, proj in (("sc1", ["X:s"]), ("sc1", ["X:p"]), ("sc1", ["X:eg"]), ("sc1", ["X:s;p"]), ("hcp", ["A:s"]),
+                         ("hex2", ["A:s", "B:p"]), ("zb", ["Ga:s", "As:p"]), ("mono2", ["X:s", "Y:p"]), ("te", ["Te:s"])):
+            lin_table.append((st, proj, False, ("Ham", "AA"), ("shell1", "lopsided")))
+        for st, proj in (("sc1", ["X:s"]), ("afm", ["X:s"]), ("bccFM", ["X:s"]), ("zbFM", ["Ga:s", "As:s"]), ("hcp", ["A:s"])):
+            lin_table.append((st, proj, True, ("Ham", "AA", "SS"), ("shell1",)))
+    for st, proj, soc, mats, rsets in lin_table:
         nw = layout({"struct": st, "proj": proj, "soc": soc})["nw"]
-        for rs in (("shell1",) if quick else ("shell1", "lopsided")):
+        for rs in rsets:
             for mat in mats:
                 # one case per (matrix, unordered pair of functions): all R, both orders, cartesian components, phases 1 and i
                 for m in range(nw):
@@ -410,6 +414,15 @@ def run_sys(case, seed):
         obs["cov_" + q] = dev
         if dev > 1e-7:
             fail(f"kspace:{q.replace('_internal_terms', '')}", dev, f"(relative to scale {scale:.3g})")
+    # 2b. the point group declared on the system is the group the model was symmetrised with
+    def canon_ops(lst):
+        return {(tuple(np.round(W, 5).ravel() + 0.0), bool(t)) for W, t in lst}
+    declared = canon_ops([(np.array(g.R) * (-1 if g.Inv else 1), g.TR) for g in s.pointgroup.symmetries])
+    used = canon_ops([(o["Wc"], o["TR"]) for o in ops_used])
+    obs["pointgroup_size"] = len(declared)
+    if declared != used:
+        fail("pointgroup_declared", float(len(declared ^ used)),
+             f"(declared {len(declared)} point operations, symmetrised with {len(used)}; symmetric difference counted)")
     # 3. R-space invariance, independent reference
     pos = np.zeros((len(iR), s.num_wann, s.num_wann, 3), dtype=complex) if hamonly else s.get_R_mat("AA").copy()
     i0 = [tuple(int(x) for x in R) for R in iR].index((0, 0, 0))
